@@ -85,7 +85,8 @@ class SrcGen:
         if ty == "temp":
             if not self.temps: ty = "write"
             else:
-                t = r.choice(self.temps)
+                # D2: a temp target is written by one directive only
+                t = self.temps.pop(r.below(len(self.temps)))
                 if self.allow_errors and r.chance(1, 60): t = "bad.txtpp"
                 n = r.below(4)
                 args = [t] + [r.choice(["body", "  two", "", "é x", "TXTPP#run no"]) for _ in range(n)]
@@ -207,7 +208,7 @@ def gen_project(rng, pid, nsrc=None, modes=(0,), allow_errors=True, edges="dag",
         le = "\r\n" if r.chance(1, 4) else "\n"
         incs = [rel(s, out_name(t)) for t in deps[s]] + [rel(s, q) for q in plains if r.chance(1, 2)]
         stem = stems[k]
-        temps = ["%s_t%d.tmp" % (stem, i) for i in range(2)] + (["sub_%s/t.tmp" % stem] if False else [])
+        temps = ["%s_t%d.tmp" % (stem, i) for i in range(3)]
         g = SrcGen(r.fork("src%d" % k), le=le, includes=incs, temps=temps, allow_errors=allow_errors,
                    marker_prefix=("m%s" % stem) if markers else None, tags=tags, cmds=cmds)
         data = g.build(r.below(9))
